@@ -117,7 +117,10 @@ func (t *SymbolTable) Var(v Variable) string {
 }
 
 func (t *SymbolTable) Clone() *SymbolTable {
-	newTable := *t
+	// copy the backing array: a shallow copy shares spare capacity, so symbols
+	// inserted through one clone would overwrite those inserted through another
+	newTable := make(SymbolTable, len(*t))
+	copy(newTable, *t)
 	return &newTable
 }
 
